@@ -251,3 +251,74 @@ func (m *RWMutex) RUnlock() {
 		s.point(false)
 	}
 }
+
+// ---- pools ----
+
+// Pool stands in for sync.Pool. Outside the scheduler it is the real pool.
+// Under the scheduler it is a deterministic LIFO free list (what sync.Pool is
+// for goroutines that stay on one P) whose Get and Put are scheduling points;
+// every pool touched during an execution is emptied by ResetPools, so that
+// each execution starts from the same (empty) pools.
+type Pool struct {
+	New   func() interface{}
+	real  sync.Pool
+	items []interface{}
+	reg   bool
+}
+
+var livePools []*Pool
+
+// ResetPools empties every pool used under the scheduler so far.
+func ResetPools() {
+	for _, p := range livePools {
+		p.items = nil
+	}
+}
+
+// PoolItems returns the objects now resting in pools used under the scheduler (harness oracles: aliasing).
+func PoolItems() [][]interface{} {
+	var out [][]interface{}
+	for _, p := range livePools {
+		out = append(out, append([]interface{}{}, p.items...))
+	}
+	return out
+}
+
+func (p *Pool) Get() interface{} {
+	s := S
+	if s == nil {
+		if v := p.real.Get(); v != nil {
+			return v
+		}
+		if p.New != nil {
+			return p.New()
+		}
+		return nil
+	}
+	s.point(false)
+	if n := len(p.items); n > 0 {
+		v := p.items[n-1]
+		p.items = p.items[:n-1]
+		return v
+	}
+	if p.New != nil {
+		return p.New()
+	}
+	return nil
+}
+
+func (p *Pool) Put(v interface{}) {
+	s := S
+	if s == nil {
+		p.real.Put(v)
+		return
+	}
+	if !p.reg {
+		p.reg = true
+		livePools = append(livePools, p)
+	}
+	p.items = append(p.items, v)
+	if !s.aborted {
+		s.point(false)
+	}
+}
